@@ -2859,7 +2859,7 @@ static WBXMLError decode_wv_datetime(WBXMLBuffer **data)
   
     /* Get Year */
     the_value = (WB_ULONG) (((data_ptr[0] & 0x3F) << 6) + ((data_ptr[1] >> 2) & 0x3F));
-    sprintf(the_year, "%u", the_value);
+    sprintf(the_year, "%04u", the_value);
   
     /* Get Month */
     the_value = (WB_ULONG) (((data_ptr[1] & 0x03) << 2) | ((data_ptr[2] >> 6) & 0x03));
